@@ -20,14 +20,19 @@ namespace DastardV.C20
 
 abbrev Label := List Nat
 
-def lSTART : Label := C06.sSTART
-def lSTOP : Label := C06.sSTOP
+/-- one line of the experiment-state file: its time stamp and its label.  `none` = stamped with the
+wall clock by the code itself (`time.Now()`: START, STOP, `UNPAUSE label`, the RPC on receipt);
+`some t` = the time stamp handed to `AnySource.SetExperimentStateLabel` by its caller. -/
+abbrev Line := Option Int × Label
+
+def lSTART : Line := (none, C06.sSTART)
+def lSTOP : Line := (none, C06.sSTOP)
 
 /-- the content of the three side files of one finished run (`st = none`: no state file) -/
 structure RunFiles where
   ext : List Int
   drop : List (Int × Int)          -- (first frame after the drop, dropped frames)
-  st : Option (List Label)
+  st : Option (List Line)
 deriving Repr, DecidableEq
 
 structure S where
@@ -35,7 +40,7 @@ structure S where
   extName : Bool                   -- ExternalTriggerFilename != ""
   ext : Option (List Int)          -- externalTriggerFile / its buffered writer
   drop : Option (List (Int × Int)) -- dataDropFile / its buffered writer
-  st : Option (List Label)         -- experimentStateFile
+  st : Option (List Line)          -- experimentStateFile
   done : List RunFiles
 deriving Repr, DecidableEq
 
@@ -44,11 +49,12 @@ def S.init : S := { active := false, extName := false, ext := none, drop := none
 inductive Op where
   | block (ext : List Int) (dropped first : Int)
   | req (r : List Nat) (valid : Bool)
-  | label (l : Label)
+  | label (l : Label)                      -- the RPC: stamped on receipt, empty label refused
+  | labelAt (ts : Int) (l : Label)         -- `AnySource.SetExperimentStateLabel(ts, l)` called directly
 deriving Repr, DecidableEq
 
 /-- `setExperimentStateLabel`: create the file on first use, append one line -/
-def setLabel (st : Option (List Label)) (l : Label) : Option (List Label) :=
+def setLabel (st : Option (List Line)) (l : Line) : Option (List Line) :=
   match st with
   | none => some [l]
   | some ls => some (ls ++ [l])
@@ -86,7 +92,7 @@ def stepReq (s : S) (valid : Bool) : C06.Kind → S × Bool
   | .pause => (s, false)
   | .unpause none => (s, false)
   | .unpause (some l) =>
-    if s.active && !C06.multiLine l then ({ s with st := setLabel s.st l }, false) else (s, true)
+    if s.active && !C06.multiLine l then ({ s with st := setLabel s.st (none, l) }, false) else (s, true)
   | .unpauseBad => (s, true)
   | .stop => (stop s, false)
   | .start =>
@@ -100,7 +106,11 @@ def step (s : S) : Op → S × Bool
   | .req r valid => stepReq s valid (C06.classify r)
   | .label l =>
     if l.isEmpty then (s, true)                        -- refused by the RPC layer
-    else if s.active && !C06.multiLine l then ({ s with st := setLabel s.st l }, false)
+    else if s.active && !C06.multiLine l then ({ s with st := setLabel s.st (none, l) }, false)
+    else (s, true)
+  | .labelAt ts l =>
+    -- no ordering rule: the line is written with the caller's time stamp whatever the previous one was
+    if s.active && !C06.multiLine l then ({ s with st := setLabel s.st (some ts, l) }, false)
     else (s, true)
 
 def runOps : S → List Op → S
@@ -118,7 +128,7 @@ def runErrs : S → List Op → List Bool
 structure Cur where
   ext : List Int
   drop : List (Int × Int)
-  labels : List Label
+  labels : List Line
 deriving Repr, DecidableEq
 
 inductive Bad where
@@ -133,7 +143,7 @@ deriving Repr, DecidableEq
 
 def Spec.init : Spec := { cur := none, done := [] }
 
-def specLabel (sp : Spec) (l : Label) (err : Bool) : Except Bad Spec :=
+def specLabel (sp : Spec) (l : Line) (err : Bool) : Except Bad Spec :=
   if err then .ok sp
   else match sp.cur with
     | none => .error .labelAcceptedInactive
@@ -149,7 +159,7 @@ def specReq (sp : Spec) (err : Bool) : C06.Kind → Except Bad Spec
     match sp.cur with
     | none => .ok sp
     | some c => .ok { cur := none, done := sp.done ++ [{ ext := c.ext, drop := c.drop, st := some (c.labels ++ [lSTOP]) }] }
-  | .unpause (some l) => specLabel sp l err
+  | .unpause (some l) => specLabel sp (none, l) err
   | .unpause none => .ok sp
   | .pause => .ok sp
   | .unpauseBad => .ok sp
@@ -163,7 +173,8 @@ def specStep (sp : Spec) (op : Op) (err : Bool) : Except Bad Spec :=
     | some c => .ok { sp with cur := some { c with ext := c.ext ++ e,
                                                    drop := if d > 0 then c.drop ++ [(f, d)] else c.drop } }
   | .req r _ => specReq sp err (C06.classify r)
-  | .label l => specLabel sp l err
+  | .label l => specLabel sp (none, l) err
+  | .labelAt ts l => specLabel sp (some ts, l) err
 
 def specRun : Spec → List Op → List Bool → Except Bad Spec
   | sp, [], _ => .ok sp
@@ -181,8 +192,8 @@ def chkC20 (ops : List Op) (errs : List Bool) (observed : List RunFiles) : Bool 
 
 /-! ### Driver -/
 
-inductive Line where
-  | ok (l : Label)
+inductive ObsLine where
+  | ok (l : Line)
   | malformed
 deriving Repr, DecidableEq
 
@@ -196,7 +207,7 @@ structure RunObs where
   drop : List (Int × Int)
   stPresent : Bool
   stHdr : Bool
-  st : List Line
+  st : List ObsLine
 deriving Repr, DecidableEq
 
 def RunObs.wellFormed (o : RunObs) : Bool :=
@@ -208,12 +219,17 @@ def RunObs.files (o : RunObs) : RunFiles :=
     st := if o.stPresent then some (o.st.filterMap fun l => match l with | .ok x => some x | .malformed => none) else none }
 
 open P in
-def parseLine : P Line := do
+/-- a state line: `b<hex>` = not of the form `<digits>, <label>`; otherwise two tokens, the time stamp
+(`w` = inside the wall-clock window of the case, else its decimal value) and the label in hex -/
+def parseLine : P ObsLine := do
   let t ← tok
-  if t == "-" then pure (.ok [])
-  else match hexBytesAux t.toList with
-    | some bs => pure (.ok bs)          -- an even number of hex digits: the label of a well-formed line
-    | none => if t.startsWith "b" then pure .malformed else fail s!"bad state line token {t}"
+  if t.startsWith "b" then pure .malformed
+  else
+    let ts ← (if t == "w" then pure none else match t.toInt? with
+      | some i => pure (some i)
+      | none => fail s!"bad time stamp token {t}" : P (Option Int))
+    let l ← bytes
+    pure (.ok (ts, l))
 
 open P in
 def parseRun : P RunObs := do
@@ -226,6 +242,7 @@ def parseRun : P RunObs := do
 inductive InOp where
   | q (r : List Nat) (valid : Bool)
   | l (lab : Label)
+  | t (ts : Int) (lab : Label)
   | b (first dropped : Int) (ext : List Int)
 
 open P in
@@ -234,12 +251,14 @@ def parseInOp : P InOp := do
   match t with
   | "Q" => do let r ← bytes; let v ← bool; pure (.q r v)
   | "L" => do let l ← bytes; pure (.l l)
+  | "T" => do let ts ← int; let l ← bytes; pure (.t ts l)
   | "B" => do let f ← int; let d ← int; let e ← list int; pure (.b f d e)
   | _ => fail s!"bad op {t}"
 
 def InOp.op : InOp → Op
   | .q r v => .req r v
   | .l lab => .label lab
+  | .t ts lab => .labelAt ts lab
   | .b f d e => .block e d f
 
 structure ImplRes where
@@ -251,7 +270,7 @@ def parseRes (op : InOp) : P ImplRes := do
   let t ← tok
   match op, t with
   | .b .., "-" => pure { err := false, run := none }
-  | .q .., "E" | .l .., "E" => do
+  | .q .., "E" | .l .., "E" | .t .., "E" => do
     let e ← bool
     let nx ← peek
     if nx == some "RUN" then
@@ -268,6 +287,15 @@ def parseAll : List InOp → P (List (InOp × ImplRes))
     let r ← parseRes o
     let rest ← parseAll os
     pure ((o, r) :: rest)
+
+/-- some line carries a caller's time stamp that is not later than an explicit stamp before it, or
+follows a clock-stamped line while lying in the past (explicit stamps < 2^61 are "past", the rest "future") -/
+def backdated : List Line → Bool
+  | [] => false
+  | (t, _) :: rest =>
+    (match t with
+      | some a => rest.any (fun l => match l.1 with | some b => b ≤ a | none => a ≥ 2305843009213693952)
+      | none => rest.any (fun l => match l.1 with | some b => b < 2305843009213693952 | none => false)) || backdated rest
 
 def isStopOp : Op → Bool
   | .req r _ => C06.classify r == .stop
@@ -306,6 +334,7 @@ def runLine (ts : List String) : Verdict :=
     if (runs.any (fun r => !r.1.wellFormed) || fin.any (fun r => !r.wellFormed)) &&
         (ops.zip errs).any (fun (o, e) => !e && match o with
           | .label l => C06.multiLine l
+          | .labelAt _ l => C06.multiLine l
           | .req r _ => (match C06.classify r with | .unpause (some l) => C06.multiLine l | _ => false)
           | _ => false) then
       .viol "C20:label-line-break an accepted state label containing a line break put an untimestamped line into the experiment-state file"
@@ -326,7 +355,7 @@ def runLine (ts : List String) : Verdict :=
       else if sp.done.map (·.drop) != observed.map (·.drop) then
         .viol "C20:drop-lines the data-drop file is not one line per block that reported dropped frames"
       else if sp.done.map (·.st) != observed.map (·.st) then
-        .viol "C20:state-file the experiment-state file is not START, one line per accepted label, STOP"
+        .viol "C20:state-file the experiment-state file is not START, one line per accepted label request (each with its own time stamp, in acceptance order), STOP"
       else
         -- 2. the model must reproduce error flags, run boundaries and contents
         let merrs := runErrs S.init ops
@@ -343,7 +372,9 @@ def runLine (ts : List String) : Verdict :=
               (if observed.any (fun r => match r.st with | some ls => ls.length > 2 | none => false) then ["labels"] else []) ++
               (if observed.length ≥ 2 then ["restart"] else []) ++
               (if observed.length ≥ 1 then ["run"] else ["no-run"]) ++
-              (if (ops.zip errs).any (fun (o, e) => e && match o with | .label _ => true | _ => false) then ["label-rejected"] else []) ++
+              (if (ops.zip errs).any (fun (o, e) => e && match o with | .label _ => true | .labelAt .. => true | _ => false) then ["label-rejected"] else []) ++
+              (if observed.any (fun r => match r.st with | some ls => ls.any (fun l => l.1.isSome) | none => false) then ["stamped"] else []) ++
+              (if observed.any (fun r => match r.st with | some ls => backdated ls | none => false) then ["backdated"] else []) ++
               (if (ops.zip errs).any (fun (o, e) => e && match o with | .req .. => true | _ => false) then ["request-rejected"] else []) ++
               (if observed.any (fun r => r.ext.isEmpty && r.drop.isEmpty) then ["empty-run"] else [])
             .ok tags
